@@ -2130,6 +2130,15 @@ def _put_slice_ClassDef_bases(
     body = ast.bases
     len_body = len(body)
     start, stop = fixup_slice_indices(len_body, start, stop)
+
+    if (start == stop and start < len_body and (keywords := ast.keywords)
+        and keywords[0].f.loc[:2] < body[start].f.loc[:2]
+        and (not start or body[start - 1].f.loc[2:] <= keywords[0].f.loc[:2])
+    ):  # insertion into the gap between two positionals which holds keywords (`f(a, k=1, *b)` at 1): put right after the previous positional, before the keywords, so that a non-Starred positional does not land after a keyword
+        idx = next(i for i, a in enumerate(self._cached_arglikes()) if a is body[start - 1]) + 1 if start else 0
+
+        return _put_slice_Call_ClassDef_arglikes(self, code, idx, idx, '_bases', one, options, expr_only=True)
+
     len_slice = stop - start
 
     fst_ = _code_to_slice__expr_arglikes(self, code, one, options)
@@ -2838,6 +2847,14 @@ def _put_slice_Call_args(
     len_body = len(body)
     start, stop = fixup_slice_indices(len_body, start, stop)
 
+    if (start == stop and start < len_body and (keywords := ast.keywords)
+        and keywords[0].f.loc[:2] < body[start].f.loc[:2]
+        and (not start or body[start - 1].f.loc[2:] <= keywords[0].f.loc[:2])
+    ):  # insertion into the gap between two positionals which holds keywords (`f(a, k=1, *b)` at 1): put right after the previous positional, before the keywords, so that a non-Starred positional does not land after a keyword
+        idx = next(i for i, a in enumerate(self._cached_arglikes()) if a is body[start - 1]) + 1 if start else 0
+
+        return _put_slice_Call_ClassDef_arglikes(self, code, idx, idx, '_args', one, options, expr_only=True)
+
     fst_ = _code_to_slice__expr_arglikes(self, code, one, options)
 
     if not fst_ and start == stop:
@@ -2876,6 +2893,7 @@ def _put_slice_Call_ClassDef_arglikes(
     options: Mapping[str, Any],
     *,
     kw_only: bool = False,
+    expr_only: bool = False,
 ) -> None:
     ast = self.a
     body = self._cached_arglikes()
@@ -2892,6 +2910,9 @@ def _put_slice_Call_ClassDef_arglikes(
     else:
         if kw_only and any((bad := a).__class__ is not keyword for a in fst_.a.arglikes):
             raise NodeError(f'expecting only keywords, got {bad.__class__.__name__}')
+
+        if expr_only and any(a.__class__ is keyword for a in fst_.a.arglikes):
+            raise NodeError('expecting only positional arguments, got keyword')
 
         validate_put_arglike(body, start, stop, fst_.a.arglikes)
 
